@@ -1,7 +1,7 @@
 #!/bin/bash
 # confirm_seeded.sh <id>: independently confirm a seeded change delivered in /tmp/seeded/<id>/:
-#  (1) applies to a clean scratch worktree and compiles, (2) the existing suite still passes with it,
-#  (3) the demonstration fails with it, (4) the demonstration passes without it.
+#  (1) applies to a clean scratch worktree and compiles, (2) the existing suite (no demo present) still
+#  passes with it, (3) the demonstration fails with it, (4) the demonstration passes without it.
 # Writes /tmp/seeded/<id>/confirm.txt. Uses its own worktree /tmp/wtv (serial use only).
 id="$1"; src=/tmp/seeded/$id; wt=/tmp/wtv
 export CARGO_NET_OFFLINE=true CARGO_TARGET_DIR=/tmp/wtv-target
@@ -10,21 +10,22 @@ cd $wt && git checkout -q --detach $(git -C /repo rev-parse HEAD) && git checkou
 out=$src/confirm.txt; : > $out
 if ! git apply --check $src/patch.diff 2>>$out; then echo "RESULT patch-does-not-apply" >> $out; exit 1; fi
 git apply $src/patch.diff
+suite=$(cargo test --offline --no-fail-fast 2>&1)
+echo "$suite" | grep -E '^test result|FAILED|^error' >> $out
+fails=$(echo "$suite" | grep -E '^test .* FAILED|^error' | wc -l)
+oks=$(echo "$suite" | grep -c '^test result: ok')
 cp $src/demo.rs tests/demo_$id.rs
-suite=$(cargo test --offline --no-fail-fast 2>&1 | grep -E '^test result|^test .* FAILED|error(\[|:)' )
-echo "$suite" | grep -v "demo_$id" >> $out
-# suite result lines: all "ok" except the demo's
-fails=$(cargo test --offline --no-fail-fast 2>&1 | grep -E '^test .* FAILED' | grep -v -E "^test (demo|.*demo_)" | wc -l)
-with=$(cargo test --offline --test demo_$id 2>&1 | grep -E '^test result' | head -1)
+with=$(cargo test --offline --test demo_$id 2>&1 | grep -E '^test result|^error' | head -1)
 git checkout -- src
-without=$(cargo test --offline --test demo_$id 2>&1 | grep -E '^test result' | head -1)
-echo "with-mutant:    $with" >> $out
-echo "without-mutant: $without" >> $out
-echo "other-failing-tests-with-mutant: $fails" >> $out
+without=$(cargo test --offline --test demo_$id 2>&1 | grep -E '^test result|^error' | head -1)
+echo "suite-with-mutant: $oks result lines ok, $fails failures" >> $out
+echo "demo-with-mutant:    $with" >> $out
+echo "demo-without-mutant: $without" >> $out
 ok=1
 echo "$with" | grep -q FAILED || ok=0
 echo "$without" | grep -q 'test result: ok' || ok=0
 [ "$fails" = "0" ] || ok=0
+[ "$oks" -ge 20 ] || ok=0
 if [ $ok = 1 ]; then echo "RESULT confirmed" >> $out; else echo "RESULT not-confirmed" >> $out; fi
 rm -f tests/demo_$id.rs
 tail -4 $out
